@@ -2,7 +2,8 @@
 (***************************************************************************)
 (* C20, algorithm level -- the byte arithmetic of internal/querylog/       *)
 (* qlogfile.go, transcribed statement by statement (line numbers refer to  *)
-(* that file), so that TLC can check that it REFINES the abstract reader   *)
+(* that file at commit ecfd163), so that TLC can check that it REFINES the  *)
+(* abstract reader                                                         *)
 (* QLogFile.tla wherever buffers and probe windows fall.                   *)
 (*                                                                         *)
 (* A file is given by the byte offsets of its newline characters           *)
@@ -32,7 +33,8 @@
 EXTENDS Integers, Sequences, FiniteSets, TLC
 
 CONSTANTS MaxEntry, BufSize, DepthLimit,
-          EmptyFileSeek     \* replies of seekTS on a file of 0 bytes, see Probe
+          EmptyGuard        \* TRUE: the code as it is (seekTS:129-134); FALSE: the
+                            \* code before commit ecfd163, kept as a negative control
 
 VARIABLES
     ends, tss,                          \* the file (never changes after Open)
@@ -78,35 +80,35 @@ WholeLine(a, b) ==
 
 Min(a, b) == IF a < b THEN a ELSE b
 
-\* ---------------------------------------------------- readNextLine:273-297
+\* ---------------------------------------------------- readNextLine:279-303
 \* Result of readNextLine(position) together with the buffer start it leaves:
 \* [bs, lineIdx, line] where line is the index of the returned line, or 0 if
 \* the returned string is not exactly one stored line (a fragment).
 ReadNextLine(pos) ==
     LET rel0   == pos - bufferStart
-        reinit == bufNil \/ (rel0 < MaxEntry /\ bufferStart # 0)                \* :275
-        bs     == IF reinit THEN (IF pos > BufSize THEN pos - BufSize ELSE 0)   \* initBuffer:302-305
+        reinit == bufNil \/ (rel0 < MaxEntry /\ bufferStart # 0)                \* :281
+        bs     == IF reinit THEN (IF pos > BufSize THEN pos - BufSize ELSE 0)   \* initBuffer:308-311
                   ELSE bufferStart
         \* the buffer holds bytes bs .. Min(bs + BufSize, Size) - 1
-        nl     == LastNLIn(bs, pos)                                             \* :286-291
-        lineIdx == IF nl = -1 THEN bs ELSE nl + 1                               \* :285, :294
+        nl     == LastNLIn(bs, pos)                                             \* :292-297
+        lineIdx == IF nl = -1 THEN bs ELSE nl + 1                               \* :291, :300
     IN [bs |-> bs, lineIdx |-> lineIdx, line |-> WholeLine(lineIdx, pos)]
 
-\* ---------------------------------------------------- readProbeLine:325-371
+\* ---------------------------------------------------- readProbeLine:331-377
 \* [ioerr, lineIdx, lineEnd (exclusive end of the returned string),
 \*  lineEndIdx (what seekTS continues from)]
 ReadProbeLine(p) ==
-    LET seekPos == IF p > MaxEntry THEN p - MaxEntry ELSE 0                     \* :328-334
-        winEnd  == Min(seekPos + 2 * MaxEntry, Size)                            \* :343-344 (bufferLen)
-        nl      == LastNLIn(seekPos, p)                                         \* :351-357
-        lineIdx == IF nl = -1 THEN seekPos ELSE nl + 1                          \* :370
-        nr      == FirstNLIn(p, winEnd)                                         \* :361-367
-        lineEnd == IF nr = -1 THEN winEnd ELSE nr                               \* :359, :363
-        lineEndIdx == IF nr = -1 THEN winEnd ELSE nr + 1                        \* :360, :364
-    IN [ioerr |-> (winEnd - seekPos <= 0),      \* Read at or past EOF returns io.EOF (:345)
+    LET seekPos == IF p > MaxEntry THEN p - MaxEntry ELSE 0                     \* :334-340
+        winEnd  == Min(seekPos + 2 * MaxEntry, Size)                            \* :349-350 (bufferLen)
+        nl      == LastNLIn(seekPos, p)                                         \* :357-363
+        lineIdx == IF nl = -1 THEN seekPos ELSE nl + 1                          \* :376
+        nr      == FirstNLIn(p, winEnd)                                         \* :367-373
+        lineEnd == IF nr = -1 THEN winEnd ELSE nr                               \* :365, :369
+        lineEndIdx == IF nr = -1 THEN winEnd ELSE nr + 1                        \* :366, :370
+    IN [ioerr |-> (winEnd - seekPos <= 0),      \* Read at or past EOF returns io.EOF (:351)
         lineIdx |-> lineIdx, lineEnd |-> lineEnd, lineEndIdx |-> lineEndIdx]
 
-\* readQLogTimestamp:393-413 on the bytes a..b-1.  A whole line yields its
+\* readQLogTimestamp:399-419 on the bytes a..b-1.  A whole line yields its
 \* timestamp.  A fragment yields 0 ("couldn't find timestamp") -- see the
 \* note on fragments at the end of the module.
 TimestampOf(a, b) == LET k == WholeLine(a, b) IN IF k = 0 THEN 0 ELSE tss[k]
@@ -119,38 +121,48 @@ NoReply == Reply("none", 0, "ok", 0)
 \* The file (ends, tss) is a parameter of a behaviour: no action mentions
 \* ends' or tss'; the enclosing module (QLogFileAlgMC, TraceQLogFileAlg) says
 \* how it is chosen and keeps it fixed.
-\* SeekStart:210-230
+\* SeekStart:216-236
 SeekStart ==
     /\ pc = "idle"
-    /\ bufNil' = TRUE                                                           \* :215
-    /\ position' = IF Size - 1 < 0 THEN 0 ELSE Size - 1                         \* :224-227
+    /\ bufNil' = TRUE                                                           \* :221
+    /\ position' = IF Size - 1 < 0 THEN 0 ELSE Size - 1                         \* :230-233
     /\ seeked' = TRUE
     /\ out' = Reply("start", 0, "ok", 0)
     /\ UNCHANGED <<bufferStart, pc, searchVars>>
 
-\* ReadNext:236-258
+\* ReadNext:242-264
 ReadNext ==
     /\ pc = "idle" /\ seeked
-    /\ IF position = 0                                                          \* :240
+    /\ IF position = 0                                                          \* :246
          THEN /\ out' = Reply("read", 0, "eof", 0)
               /\ UNCHANGED <<position, bufferStart, bufNil>>
          ELSE \E r \in {ReadNextLine(position)} :     \* (a LET, evaluated once: see Probe)
               /\ bufferStart' = r.bs
               /\ bufNil' = FALSE
-              /\ position' = IF r.lineIdx = 0 THEN 0 ELSE r.lineIdx - 1         \* :250-256
+              /\ position' = IF r.lineIdx = 0 THEN 0 ELSE r.lineIdx - 1         \* :256-262
               /\ out' = IF r.line = 0 THEN Reply("read", 0, "fragment", 0)
                         ELSE Reply("read", 0, "ok", r.line)
     /\ UNCHANGED <<pc, searchVars, seeked>>
 
-\* seekTS:106-140, up to the first iteration of the loop.
+\* seekTS:106-146, up to the first iteration of the loop.  A file of 0 bytes
+\* has nothing to probe: the guard at :129-134 returns errTSTooEarly (depth 0,
+\* position untouched, buffer already dropped) -- the class that lets
+\* qLogReader go on to the older file (QLogFileProps!EmptyAsTooEarlyComposes).
+\* Without the guard (EmptyGuard = FALSE, the code before ecfd163) the loop
+\* is entered and its first Read fails: see the io-error branch of Probe.
 SeekTSBegin(t) ==
     /\ pc = "idle"
     /\ bufNil' = TRUE                                                           \* :115
     /\ sTarget' = t
-    /\ sStart' = 0 /\ sEnd' = Size /\ sProbe' = Size \div 2                     \* :126-130
-    /\ sLast' = -1 /\ sDepth' = 0                                               \* :138
-    /\ pc' = "probe"
-    /\ UNCHANGED <<position, bufferStart, seeked, out>>
+    /\ sDepth' = 0
+    /\ IF EmptyGuard /\ Size = 0                                                \* :129-134
+         THEN /\ pc' = "idle" /\ seeked' = TRUE
+              /\ out' = Reply("seek", t, "tooEarly", 0)
+              /\ UNCHANGED <<position, bufferStart, sStart, sEnd, sProbe, sLast>>
+         ELSE /\ sStart' = 0 /\ sEnd' = Size /\ sProbe' = Size \div 2           \* :126-136
+              /\ sLast' = -1                                                    \* :144
+              /\ pc' = "probe"
+              /\ UNCHANGED <<position, bufferStart, seeked, out>>
 
 \* How a seek returns: with an error (position untouched) ...
 SeekFails(e) ==
@@ -158,7 +170,7 @@ SeekFails(e) ==
     /\ seeked' = TRUE
     /\ out' = Reply("seek", sTarget, e, 0)
     /\ UNCHANGED <<position, searchVars>>
-\* ... or with the position set (:200).
+\* ... or with the position set (:206).
 SeekLands(p) ==
     /\ pc' = "idle"
     /\ seeked' = TRUE
@@ -166,39 +178,37 @@ SeekLands(p) ==
     /\ out' = Reply("seek", sTarget, "ok", 0)
     /\ UNCHANGED searchVars
 
-\* One iteration of the loop seekTS:142-198.
+\* One iteration of the loop seekTS:148-204.
 Probe ==
     /\ pc = "probe"
     /\ UNCHANGED <<bufferStart, bufNil>>
     \* "LET r == .. ts == .. IN", written as quantification over singletons: TLC
     \* re-evaluates a LET definition at every use inside an action, and r is
     \* used a dozen times (measured: 3x faster trace validation).
-    /\ \E r \in {ReadProbeLine(sProbe)} :                                        \* :144
-       \E ts \in {TimestampOf(r.lineIdx, r.lineEnd)} :                          \* :159
-       \* :145-147.  Only a file of 0 bytes gets here: readProbeLine's Read
-       \* returns io.EOF and seekTS passes it on -- an error that is none of
-       \* the three classes (known finding C20:empty-file-seek-eof; the
-       \* configuration QLogFileAlgMC.empty.cfg shows the refinement
-       \* violation).  The repair proposed for it answers tooEarly before the
-       \* loop.  EmptyFileSeek lists which of the two this spec admits, so that
-       \* direction B accepts the code before and after the repair.
-       IF r.ioerr THEN \E e \in EmptyFileSeek : SeekFails(e)
+    /\ \E r \in {ReadProbeLine(sProbe)} :                                        \* :150
+       \E ts \in {TimestampOf(r.lineIdx, r.lineEnd)} :                          \* :165
+       \* :151-153.  readProbeLine's Read returns io.EOF only on a file of 0
+       \* bytes, which the guard in SeekTSBegin keeps out of the loop; reachable
+       \* only with EmptyGuard = FALSE, where seekTS passes the io.EOF on -- an
+       \* error that is none of the three classes (finding C20:empty-file-seek-
+       \* eof, fixed by ecfd163; QLogFileAlgMC.noguard.cfg must violate Refines).
+       IF r.ioerr THEN SeekFails("ioerr")
        \* validateQLogLineIdx:72-88
        ELSE IF r.lineIdx = sLast /\ r.lineIdx = 0 THEN SeekFails("tooEarly")
        ELSE IF r.lineIdx = sLast THEN SeekFails("notFound")
        ELSE IF r.lineIdx = Size THEN SeekFails("tooLate")
-       ELSE IF ts = 0 THEN SeekFails("nots")                                    \* :160-167
-       ELSE IF ts = sTarget THEN SeekLands(r.lineEnd)                           \* :169-172, :200
-       ELSE LET start2 == IF ts > sTarget THEN sStart ELSE r.lineEndIdx         \* :175-185
+       ELSE IF ts = 0 THEN SeekFails("nots")                                    \* :166-173
+       ELSE IF ts = sTarget THEN SeekLands(r.lineEnd)                           \* :175-178, :206
+       ELSE LET start2 == IF ts > sTarget THEN sStart ELSE r.lineEndIdx         \* :181-191
                 end2   == IF ts > sTarget THEN r.lineIdx ELSE sEnd
-            IN IF sDepth + 1 >= DepthLimit                                      \* :188-197
+            IN IF sDepth + 1 >= DepthLimit                                      \* :194-203
                THEN /\ pc' = "idle" /\ seeked' = TRUE                          \* returns the
                     /\ out' = Reply("seek", sTarget, "notFound", 0)            \* incremented depth
                     /\ sDepth' = sDepth + 1
                     /\ UNCHANGED <<position, sTarget, sStart, sEnd, sProbe, sLast>>
                ELSE /\ sStart' = start2 /\ sEnd' = end2
-                    /\ sProbe' = start2 + (end2 - start2) \div 2                \* :186
-                    /\ sLast' = r.lineIdx                                       \* :156
+                    /\ sProbe' = start2 + (end2 - start2) \div 2                \* :192
+                    /\ sLast' = r.lineIdx                                       \* :162
                     /\ sDepth' = sDepth + 1
                     /\ UNCHANGED <<pc, sTarget, position, seeked, out>>
 
